@@ -202,6 +202,8 @@ def replay(path):
     if not nat:
         print(json.dumps(dict(reproduced=False, why='replay file carries no native input')))
         return 0
+    if nat.get('explicit_args'):
+        return replay_args(path)
     contracts.load_all()
     q = nat['qualname']
     c = S.CONTRACTS[q]
@@ -219,7 +221,40 @@ def replay(path):
     return 1 if out['reproduced'] else 0
 
 
+def build_args(spec):
+    out = {}
+    for name, d in spec.items():
+        if d['kind'] in ('int', 'real', 'bool'):
+            out[name] = d['value']
+        elif d['kind'] == 'list':
+            out[name] = list(d['value'])
+        elif d['kind'] in ('arr1', 'arr2'):
+            a = np.array(d['value'], dtype=float if d.get('dtype') == 'real' else int)
+            out[name] = a.reshape(d['shape']) if a.size == 0 else a
+        else:
+            raise ValueError('kind ' + d['kind'])
+    return out
+
+
+def replay_args(path):
+    """explicit arguments (decoded from a solver model, or stored in a replay file) against the real function"""
+    rep = json.load(open(path))
+    spec = rep.get('args') or (rep.get('native') or {}).get('explicit_args')
+    q = rep.get('qualname') or rep['native']['qualname']
+    contracts.load_all()
+    c = S.CONTRACTS[q]
+    fn = resolve(q)
+    ev = clause_eval.Evaluator(S.SPECFNS)
+    args = build_args(spec)
+    r = check_case(c, fn, args, ev)
+    print(json.dumps(dict(status=r['status'], failed=r.get('failed'), why=r.get('why'), exc=r.get('exc'),
+                          result=r.get('result'), args=describe(args)), default=str))
+    return 1 if r['status'] == 'fail' else 0
+
+
 if __name__ == '__main__':
+    if sys.argv[1] == 'replay-args':
+        sys.exit(replay_args(sys.argv[2]))
     if sys.argv[1] == 'search':
         res = search(sys.argv[2], int(sys.argv[3]), int(sys.argv[4]), sys.argv[5] if len(sys.argv) > 5 else None)
         print(json.dumps(res, default=str))
